@@ -50,10 +50,15 @@
 (*                  Isolation violated through the shared file position    *)
 (*                  by interleaving two members.                           *)
 (*                                                                         *)
-(* Finding control: __iter__ as written (IterYieldsAll = FALSE) refines    *)
-(* the reference only with the deviation IterSingleLine = TRUE; with       *)
-(* IterSingleLine = FALSE TLC reports SameResult violated by a single      *)
-(* list(member) on a member with two lines (thorough tier runs it).        *)
+(* Iteration: __iter__ as repaired in commit 225a5e1 (`while line: yield   *)
+(* line; line = self.readline()`) is IterYieldsAll = TRUE and refines the  *)
+(* reference (every remaining line).  Negative control, run in every       *)
+(* check: IterYieldsAll = FALSE (the old `if line: yield line`, ONE line   *)
+(* per iterator) makes TLC report Refines / SameResult violated by a       *)
+(* single list(member) on a member with two lines.  The reference keeps    *)
+(* the switch IterSingleLine (FALSE everywhere): it would re-admit the old *)
+(* outcome as a named deviation and is never enabled now that              *)
+(* known_findings.json lists C06-iter-single-line as fixed.                *)
 (*                                                                         *)
 (* This module is about ONE archive whose file does not change.  What      *)
 (* happens when the process opens several archives under the same path     *)
@@ -64,7 +69,7 @@ EXTENDS ArMemberRef
 
 CONSTANTS Modes,           \* subset of {"shared", "byname"}
           ClampReadline, PadOdd, SeekFirst,
-          IterYieldsAll    \* FALSE: __iter__ as written today (yields one line)
+          IterYieldsAll    \* TRUE: __iter__ as repaired (225a5e1); FALSE: the old single-line generator
 
 VARIABLES arch, mode, pc, table, byname, cur, fp, ret
 
@@ -209,8 +214,9 @@ ReadLineN(m, n)  == AReadLineN(m, n) /\ IRl(m, n)
 ReadLines(m)     == AReadLines(m)    /\ IRls(m)
 \* readlines(sizehint): the argument is ignored ("pylint: disable=unused-argument")
 ReadLinesHint(m, h) == AReadLinesHint(m, h, Len(BLineSpans(D(m), pos[m]))) /\ IRls(m)
-\* __iter__: `line = self.readline(); if line: yield line` -- ONE line per iterator (IterYieldsAll =
-\* FALSE, the code today); a generator looping until the empty line would be IRls (IterYieldsAll)
+\* __iter__: `line = self.readline(); while line: yield line; line = self.readline()` = the readlines
+\* loop (IterYieldsAll, the code since 225a5e1); before that `if line: yield line` -- ONE line per
+\* iterator (IterYieldsAll = FALSE, kept as the negative control)
 IIter(m) == IF IterYieldsAll THEN IRls(m)
             ELSE LET r == RlStep(m, cur[m], fp[H(m)], -1)
                  IN IApply(m, IRes("l", IF r.buf = <<>> THEN <<>> ELSE <<r.buf>>, 0), r.cur, r.fp)
